@@ -42,7 +42,7 @@ MinOrder(op) == IF op \in ProductOps THEN 1 ELSE 2
 
 Init == /\ expect = [t |-> "none"]
         /\ \E op \in OPS, N \in SHAPES, r \in RANKS, e \in EPSEXP, g \in GUESS, s \in SEEDS, cx \in BOOLEAN, be \in BACKENDS,
-              data \in {"rand", "decay"}, sq \in BOOLEAN,
+              data \in {"rand", "decay", "zero"}, sq \in BOOLEAN,
               prec \in PREC \cup {"none"}, mf \in MAXFULL \cup {500}, ls \in SOLVER \cup {1}, sys \in SYSCLS \cup {"na"},
               sc \in SCALES \cup {"unit"} :
              /\ Len(N) >= MinOrder(op)
@@ -53,6 +53,9 @@ Init == /\ expect = [t |-> "none"]
              /\ (cx => ComplexOK(op))
              /\ (be = "cpp" => op \in {"fast_matvec", "amen_solve"} /\ ~cx)
              /\ (data = "decay" => op \in ProductOps \cup SolveOps)
+             \* data = "zero": the second operand (products), the right-hand side (solve) or the numerator (divide) is exactly zero;
+             \* the exact result is the zero tensor and the routine has to return it (to roundoff), not to fail
+             /\ (data = "zero" => op \in ProductOps \cup SolveOps \cup DivideOps /\ g = "none" /\ sc = "unit" /\ r = 1)
              /\ (sq => op \in {"fast_matvec", "amen_mv", "amen_mm", "amen_solve"})      \* square operator
              /\ (g = "alias" => (sq \/ op \notin {"fast_matvec", "amen_mv", "amen_mm"}))
              /\ (op \notin SolveOps => prec = "none" /\ mf = 500 /\ ls = 1 /\ sys = "na")
@@ -66,7 +69,7 @@ Init == /\ expect = [t |-> "none"]
              /\ (op \in SolveOps /\ data = "decay" => Len(N) >= 3 /\ N[1] >= 12)
              \* large systems (where the restarted / iterative local solvers really iterate) only for the Laplacian class
              /\ (op \in SolveOps /\ Len(N) >= 3 /\ N[1] >= 12 => sys = "laplace" /\ g \in {"none", "fresh"} /\ ls = 1)
-             /\ (op \in DivideOps \cup CrossOps \cup ManifoldOps => data = "rand" /\ ~sq)
+             /\ (op \in DivideOps \cup CrossOps \cup ManifoldOps => data \in {"rand", "zero"} /\ ~sq)
              /\ (op = "elementwise_divide_c" \/ op \in {"div", "rdiv"} => g \in {"none"} \/ op = "elementwise_divide_c")
              /\ cfg = [op |-> op, N |-> N, M |-> IF sq THEN N ELSE RowsOf(N), r |-> r, e |-> e, guess |-> g, seed |-> s, cx |-> cx,
                        backend |-> be, data |-> data, prec |-> prec, maxfull |-> mf, solver |-> ls, sys |-> sys, scale |-> sc]
